@@ -582,9 +582,7 @@ func (vm *VM) nextCall() bool {
 				if call.status == deferred {
 					vm.calls[i] = vm.calls[i+1]
 					vm.calls[i].status = panicked
-					if call.cl.fn != nil {
-						i++
-					}
+					i++
 					break
 				}
 			}
